@@ -40,6 +40,9 @@ type Case struct {
 	// time when its timer finally fires
 	SlowAcks  int `json:"slow_acks,omitempty"`
 	SlowAckMs int `json:"slow_ack_ms,omitempty"`
+	// AckDivide k > 1: the peer acknowledges newly received data in k pieces (ACK
+	// division): acknowledgements that end inside a segment acknowledge no segment
+	AckDivide int `json:"ack_divide,omitempty"`
 }
 
 type ackRec struct {
@@ -90,10 +93,14 @@ func runOnce(c Case) *evid.Failure {
 	lastAckVal, lastWnd := uint32(0), uint16(65535)
 	haveLastAck := false
 	nDataInjected := 0
+	ackOverride := uint32(0)
 	sendAck := func(forceDup bool) {
 		ackOff := uint32(edge * payload)
 		if ackOff > uint32(total) {
 			ackOff = uint32(total)
+		}
+		if ackOverride > 0 {
+			ackOff = ackOverride
 		}
 		wnd := uint16(65535)
 		if c.WndJitter && forceDup && len(acks)%2 == 1 {
@@ -419,6 +426,21 @@ func runOnce(c Case) *evid.Failure {
 			if c.AckDelayMs > 0 {
 				time.Sleep(time.Duration(c.AckDelayMs) * time.Millisecond)
 			}
+			if c.AckDivide > 1 && haveLastAck {
+				// ACK division: the same data acknowledged in pieces
+				to := uint32(edge * payload)
+				if to > uint32(total) {
+					to = uint32(total)
+				}
+				for j := 1; j < c.AckDivide; j++ {
+					if part := lastAckVal + (to-lastAckVal)*uint32(j)/uint32(c.AckDivide); part > lastAckVal && part < to {
+						ackOverride = part
+						sendAck(false)
+						evid.Label("ack-division:partial-ack")
+					}
+				}
+				ackOverride = 0
+			}
 			sendAck(false)
 			firstAckSent = true
 			sinceAck = 0
@@ -510,6 +532,7 @@ func genCase(rt *rapid.T) Case {
 	c.WndJitter = rapid.IntRange(0, 4).Draw(rt, "wnd_jitter") == 0
 	c.SACKBlocks = rapid.Bool().Draw(rt, "sack_blocks")
 	c.DupData = rapid.IntRange(0, 4).Draw(rt, "dup_data") == 0
+	c.AckDivide = rapid.SampledFrom([]int{0, 0, 0, 2, 4, 10}).Draw(rt, "ack_divide")
 	mode := rapid.SampledFrom([]string{"loss", "loss", "silence", "silence", "both", "slowacks"}).Draw(rt, "mode")
 	c.SilentAt = -1
 	if mode == "slowacks" {
